@@ -1,16 +1,23 @@
 #!/bin/bash
 # Full sensitivity regression: every mutant (tools/selftest.py), every seeded defect and every
 # benign refactor against the checks, from the current directory (use with `vp run`).
-#   vp run --timeout 4h -- tools/regress.sh
+#   vp run --timeout 4h -- tools/regress.sh [mutants|seeded|all]
+WHAT=${1:-all}
 mkdir -p selftest_results
-tools/selftest.py --parallel 2 --jobs 8 > selftest_results/mutants.log 2>&1
-tail -1 selftest_results/mutants.log
-: > selftest_results/seeded.log
-for d in seeded/*/; do
-  p=$(/venv/bin/python -c "import json,sys;m=json.load(open('$d/meta.json'));print(m.get('check_with',m['property']))")
-  tools/seeded.py $d $p 2>&1 | head -3 >> selftest_results/seeded.log
-done
-for d in benign/*/; do
-  tools/seeded.py $d C06 C07 C08 C09 C11 C14 C15 C20 2>&1 | grep -E "CAUGHT|ERROR" >> selftest_results/seeded.log
-done
-grep -c "^CAUGHT" selftest_results/seeded.log; grep -E "^NOT-CAUGHT|^ERROR" selftest_results/seeded.log
+if [ "$WHAT" != seeded ]; then
+  tools/selftest.py --parallel 2 --jobs 8 > selftest_results/mutants.log 2>&1
+  tail -1 selftest_results/mutants.log
+fi
+if [ "$WHAT" != mutants ]; then
+  one() {
+    d=$1
+    p=$(/venv/bin/python -c "import json,sys;m=json.load(open('$d/meta.json'));print(m.get('check_with',m['property']))")
+    tools/seeded.py $d $p --jobs 5 2>&1 | head -3
+  }
+  export -f one
+  ls -d seeded/*/ | xargs -P 3 -I{} bash -c 'one {}' > selftest_results/seeded.log 2>&1
+  for d in benign/*/; do
+    tools/seeded.py $d C06 C07 C08 C09 C11 C14 C15 C20 2>&1 | grep -E "CAUGHT|ERROR" >> selftest_results/seeded.log
+  done
+  grep -c "^CAUGHT" selftest_results/seeded.log; grep -E "^NOT-CAUGHT|^ERROR" selftest_results/seeded.log
+fi
